@@ -518,4 +518,13 @@ example : load 0 [0, 9] { dev5 with kind := .other } = .error .value ∧
     load 0 [] dev5 = .error .value := by
   decide
 
+/-- the hypotheses of `rejects_no_native_gate` (both parts) and of `table_single_label_zero` are satisfiable: a basis
+without `ecr`/`cx`; requested qubits with a complete calibration record and a `dt`; a layout whose largest label is 0 -/
+example : (∀ x ∈ ["cz", "id", "rz", "sx", "x"], x ≠ "ecr" ∧ x ≠ "cx") ∧
+    (∀ q ∈ [0, 4], ¬ MissingEarly dev5 q ∧ List.lookup q dev5.rlen ≠ none) ∧ dev5.dt ≠ none ∧
+    maxLabel [0, 0] = some 0 := by
+  refine ⟨by decide, ?_, by decide, by decide⟩
+  unfold MissingEarly
+  decide
+
 end QG.C20
